@@ -178,6 +178,68 @@ pub open spec fn load_post(c: Config, input: Seq<Token>, mode: FormatTokenType, 
     &&& forall|j: int| 0 <= j < out.len() && !is_comment_tt(token_type_of(#[trigger] out[j])) ==> is_cfg_ws(out[j], c)
     &&& (mode is LeadingTrivia ==> forall|j: int| 0 <= j < out.len() && is_line_comment_tt(token_type_of(#[trigger] out[j])) ==> j + 1 < out.len() && is_newline_for(out[j + 1], c))
 }
+// ---- a line comment in formatted trivia comes from a line comment in the source trivia (C01 line safety, prelude/lines.rs:
+// a formatted token can only be `open` if its source token carried a line comment in its trailing trivia)
+pub open spec fn has_line_comment(s: Seq<Token>) -> bool { exists|i: int| 0 <= i < s.len() && token_type_of(#[trigger] s[i]) is SingleLineComment }
+pub proof fn lemma_cms_has_line_comment(s: Seq<Token>)
+    ensures has_line_comment(cms(s)) == has_line_comment(s),
+    decreases s.len(),
+{
+    if s.len() > 0 {
+        let p = s.drop_last();
+        lemma_cms_has_line_comment(p);
+        assert(s =~= p.push(s.last()));
+        if has_line_comment(s) {
+            let i = choose|i: int| 0 <= i < s.len() && token_type_of(#[trigger] s[i]) is SingleLineComment;
+            if i < s.len() - 1 {
+                assert(p[i] == s[i]);
+                assert(has_line_comment(p));
+                let j = choose|j: int| 0 <= j < cms(p).len() && token_type_of(#[trigger] cms(p)[j]) is SingleLineComment;
+                if is_comment_tt(token_type_of(s.last())) { assert(cms(s)[j] == cms(p)[j]); }
+                assert(has_line_comment(cms(s)));
+            } else {
+                assert(is_comment_tt(token_type_of(s.last())));
+                assert(cms(s)[cms(s).len() - 1] == s.last());
+                assert(has_line_comment(cms(s)));
+            }
+        }
+        if has_line_comment(cms(s)) {
+            let j = choose|j: int| 0 <= j < cms(s).len() && token_type_of(#[trigger] cms(s)[j]) is SingleLineComment;
+            if is_comment_tt(token_type_of(s.last())) && j == cms(s).len() - 1 {
+                assert(s[s.len() - 1] == s.last());
+                assert(has_line_comment(s));
+            } else {
+                assert(cms(p)[j] == cms(s)[j]);
+                assert(has_line_comment(cms(p)));
+                let i = choose|i: int| 0 <= i < p.len() && token_type_of(#[trigger] p[i]) is SingleLineComment;
+                assert(s[i] == p[i]);
+                assert(has_line_comment(s));
+            }
+        }
+    }
+}
+pub proof fn lemma_load_post_line_comment(c: Config, input: Seq<Token>, mode: FormatTokenType, out: Seq<Token>)
+    requires load_post(c, input, mode, out),
+    ensures has_line_comment(out) ==> has_line_comment(input),
+{
+    lemma_cms_has_line_comment(out);
+    lemma_cms_has_line_comment(input);
+    if has_line_comment(out) {
+        let j = choose|j: int| 0 <= j < cms(out).len() && token_type_of(#[trigger] cms(out)[j]) is SingleLineComment;
+        assert(fmt_tt(c, token_type_of(cms(input)[j]), token_type_of(cms(out)[j])));
+        assert(token_type_of(cms(input)[j]) is SingleLineComment);
+    }
+}
+pub proof fn lemma_concat_line_comment(a: Seq<Token>, b: Seq<Token>)
+    ensures has_line_comment(a + b) == (has_line_comment(a) || has_line_comment(b)),
+{
+    if has_line_comment(a + b) {
+        let i = choose|i: int| 0 <= i < (a + b).len() && token_type_of(#[trigger] (a + b)[i]) is SingleLineComment;
+        if i < a.len() { assert(a[i] == (a + b)[i]); } else { assert(b[i - a.len()] == (a + b)[i]); }
+    }
+    if has_line_comment(a) { let i = choose|i: int| 0 <= i < a.len() && token_type_of(#[trigger] a[i]) is SingleLineComment; assert((a + b)[i] == a[i]); }
+    if has_line_comment(b) { let i = choose|i: int| 0 <= i < b.len() && token_type_of(#[trigger] b[i]) is SingleLineComment; assert((a + b)[i + a.len()] == b[i]); }
+}
 pub open spec fn opt_all_cfg_ws(v: Option<Vec<Token>>, c: Config) -> bool {
     v is Some ==> forall|i: int| 0 <= i < v->Some_0@.len() ==> is_cfg_ws(#[trigger] v->Some_0@[i], c)
 }
@@ -386,7 +448,9 @@ def items():
         fmt_tt(ctx.config, token_type_of(tr_token(*token_reference)), token_type_of(tr_token(r))), //# C03.tokref_token
         load_post(ctx.config, lead(*token_reference), FormatTokenType::LeadingTrivia, lead(r)), //# C03.tokref_leading
         load_post(ctx.config, trail(*token_reference), FormatTokenType::TrailingTrivia, trail(r)), //# C03.tokref_trailing
+        has_line_comment(trail(r)) ==> has_line_comment(trail(*token_reference)), //# C01.tokref_open_only_if_source
 """, edits=[
+            Before("TokenReference::new(formatted_leading_trivia, token, formatted_trailing_trivia)", "proof { lemma_load_post_line_comment(ctx.config, trail(*token_reference), FormatTokenType::TrailingTrivia, formatted_trailing_trivia@); }"),
             Hole("token_reference.leading_trivia().collect()", "verif::lead_refs(token_reference)", kind="wrapper", why="impl Iterator::collect"),
             Hole("token_reference.trailing_trivia().collect()", "verif::trail_refs(token_reference)", kind="wrapper", why="impl Iterator::collect"),
         ]),
@@ -395,7 +459,9 @@ def items():
         tr_token(r) == tr_token(*wanted_symbol), //# C02.symbol_token
         exists|l: Seq<Token>| #[trigger] load_post(ctx.config, lead(*current_symbol), FormatTokenType::LeadingTrivia, l) && lead(r) == l + lead(*wanted_symbol), //# C03.symbol_leading
         exists|t: Seq<Token>| #[trigger] load_post(ctx.config, trail(*current_symbol), FormatTokenType::TrailingTrivia, t) && trail(r) == trail(*wanted_symbol) + t, //# C03.symbol_trailing
+        has_line_comment(trail(r)) ==> has_line_comment(trail(*current_symbol)) || has_line_comment(trail(*wanted_symbol)), //# C01.symbol_open_only_if_source
 """, edits=[
+            Before("wanted_trailing_trivia.append(&mut formatted_trailing_trivia);", "let ghost ft = formatted_trailing_trivia@; let ghost wt = wanted_trailing_trivia@; proof { lemma_load_post_line_comment(ctx.config, trail(*current_symbol), FormatTokenType::TrailingTrivia, ft); lemma_concat_line_comment(wt, ft); }"),
             Hole("current_symbol.leading_trivia().collect()", "verif::lead_refs(current_symbol)", kind="wrapper", why="impl Iterator::collect"),
             Hole("current_symbol.trailing_trivia().collect()", "verif::trail_refs(current_symbol)", kind="wrapper", why="impl Iterator::collect"),
             Hole("""wanted_symbol
@@ -458,6 +524,8 @@ LABELS = {
     "C03.tokref_token": dict(props=["C03", "C02", "C04"], text="format_token_reference: the token itself is only rewritten as format_token allows"),
     "C03.tokref_leading": dict(props=["C03", "C10", "C01"], text="format_token_reference: leading trivia = load_token_trivia of the input's leading trivia (comments kept in order)"),
     "C03.tokref_trailing": dict(props=["C03", "C10"], text="format_token_reference: trailing trivia = load_token_trivia of the input's trailing trivia"),
+    "C01.tokref_open_only_if_source": dict(props=["C01"], text="format_token_reference: the formatted trailing trivia hold a line comment only if the source token's trailing trivia do (so a formatted token is open only if its source carried a line comment: the assumption format_binop / format_unop rest on in unit expr)"),
+    "C01.symbol_open_only_if_source": dict(props=["C01"], text="format_symbol: same, for the replaced symbol (or the wanted symbol's own trivia)"),
     "C02.symbol_token": dict(props=["C02"], text="format_symbol: the resulting token is exactly the wanted symbol's token"),
     "C03.symbol_leading": dict(props=["C03"], text="format_symbol: comments leading the replaced symbol survive, followed by the wanted symbol's own leading trivia"),
     "C03.symbol_trailing": dict(props=["C03"], text="format_symbol: comments trailing the replaced symbol survive, after the wanted symbol's own trailing trivia"),
